@@ -90,8 +90,11 @@ func H_reader_safe() {
 				symAssert(delta == 0, "close-ok-implies-crc-matches")
 			}
 		}
-		ref, _ := refDecode(in[hdr:], len(out), maxOut+64)
+		ref, _, used := refDecodeBits(in[hdr:], len(out), maxOut+64)
 		symAssert(len(ref) >= len(out), "close-ok-implies-canonical-length")
+		// a stream cut inside a symbol has no canonical decoding: the zero bits
+		// the decoder invents past the end of the input are not part of the stream
+		symAssert(used <= 8*payload, "close-ok-implies-every-decoded-symbol-was-fully-present-in-the-input")
 		same := true
 		for i := range out {
 			if i < len(ref) && ref[i] != out[i] {
@@ -101,6 +104,32 @@ func H_reader_safe() {
 		symAssert(same, "close-ok-implies-canonical-decoding")
 	} else {
 		symReach("close-error")
+	}
+	symReach("end")
+}
+
+// C08 K2 / C07 K3c: the position decoder on arbitrary bits.  A match symbol is
+// followed by a position code of 8 table-indexed bits plus 1..6 verbatim bits;
+// hostile input reaches every one of the 256 table rows, canonical streams only
+// some.  Input: 0..2 symbolic bytes after a plain header (shorter inputs end
+// inside the code: the bit reader then supplies zeros and records its error).
+func H_decode_position() {
+	n := symInt(0, 2)
+	body := symBytes(n)
+	in := append([]byte{100, 0, 0, 0}, body...)
+	d, err := NewReader(bytes.NewReader(in), false)
+	symAssert(err == nil, "header-accepted")
+	pos := d.decodePosition()
+	// 6 table bits + 6 verbatim bits; Read reduces it modulo the window size
+	symAssert(pos >= 0 && pos < 64*64, "decoded-position-is-twelve-bits")
+	if n == 2 {
+		symAssert(d.r.Err() == nil, "fourteen-bits-suffice")
+		z := new(refLZ)
+		z.makeTables()
+		z.in = body
+		symAssert(pos == z.decodePosition(), "position-code-canonical")
+	} else {
+		symAssert(d.r.Err() != nil, "exhausted-input-recorded")
 	}
 	symReach("end")
 }
